@@ -1,6 +1,6 @@
 (* C11 (token level, partial) — the criterion "same token sequence up to white space, blank lines and
    surrounding blanks in token texts" is an equivalence with a verified checker; the formatter's
-   built-in self check is modelled and shown sound only up to a prefix (refuted witnesses).
+   built-in self check is modelled and shown to decide exactly that criterion.
    The formatter's own handlers are NOT modelled: each run certifies the outputs it produced
    (translation validation with the verified criterion over the model tokenizer of C10). *)
 From Coq Require Import NArith List Bool Arith.
@@ -27,38 +27,35 @@ Proof. exact symbols_preserved_proof. Qed.
 Theorem collapse_no_leading_newline : forall ts t rest, collapse ts = t :: rest -> is_newline t = false.
 Proof. exact collapse_no_leading_newline_proof. Qed.
 
-(* sanity_check_format_result reports nothing exactly when the original is equivalent to a PREFIX
-   of the formatted token list *)
-Theorem sanity_ok_iff : forall T o f,
-  sanity_tokens T o f = ScOk <->
-  exists f1 f2, collapse f = f1 ++ f2 /\ Forall2 (tok_equiv T) (collapse o) f1.
+(* sanity_check_format_result (as of fix 7fc177c) reports nothing EXACTLY when the criterion holds *)
+Theorem sanity_ok_iff : forall T o f, sanity_tokens T o f = ScOk <-> fmt_equiv T o f.
 Proof. exact sanity_ok_iff_proof. Qed.
 
 Theorem sanity_complete : forall T o f, fmt_equiv T o f -> sanity_tokens T o f = ScOk.
 Proof. exact sanity_complete_proof. Qed.
 
-Theorem sanity_sound_guarded : forall T o f,
-  sanity_tokens T o f = ScOk -> length (collapse f) <= length (collapse o) -> fmt_equiv T o f.
-Proof. exact sanity_sound_guarded_proof. Qed.
+Theorem sanity_sound : forall T o f, sanity_tokens T o f = ScOk -> fmt_equiv T o f.
+Proof. exact sanity_sound_proof. Qed.
 
-(* ... so it is not sound: extra trailing tokens pass *)
-Theorem sanity_sound_refuted : exists T o f, sanity_tokens T o f = ScOk /\ ~ fmt_equiv T o f.
-Proof. exact sanity_sound_refuted_proof. Qed.
+(* its two error reports mean what they say *)
+Theorem sanity_bug_position : forall T o f i,
+  sanity_tokens T o f = ScBug i ->
+  exists a b, nth_error (collapse o) i = Some a /\ nth_error (collapse f) i = Some b /\ ~ tok_equiv T a b /\
+              Forall2 (tok_equiv T) (firstn i (collapse o)) (firstn i (collapse f)).
+Proof. exact sanity_bug_proof. Qed.
 
-(* ... and on a shorter formatted list it raises IndexError instead of reporting *)
-Theorem sanity_raises_iff : forall T o f,
-  sanity_tokens T o f = ScIndexError <->
-  exists o1 x o2, collapse o = o1 ++ x :: o2 /\ Forall2 (tok_equiv T) o1 (collapse f).
-Proof. exact sanity_raises_iff_proof. Qed.
+Theorem sanity_count_differs : forall T o f a b,
+  sanity_tokens T o f = ScCount a b ->
+  a = length (collapse o) /\ b = length (collapse f) /\ a <> b /\
+  Forall2 (tok_equiv T) (firstn (min a b) (collapse o)) (firstn (min a b) (collapse f)).
+Proof. exact sanity_count_proof. Qed.
 
-Theorem sanity_raises_refuted : exists T o f, sanity_tokens T o f = ScIndexError.
-Proof. exact sanity_raises_refuted_proof. Qed.
-
-Theorem sanity_text_refuted :
-  sanity_check toy_table [97; 10; 98; 10]%N [97; 10]%N = SanRes ScOk /\
+Example sanity_text_example :
+  sanity_check toy_table [97; 10; 98; 10]%N [97; 10]%N = SanRes (ScCount 2 4) /\
   fmt_check toy_table [97; 10]%N [97; 10; 98; 10]%N = FvDiffer /\
-  sanity_check toy_table [97; 10]%N [97; 10; 98; 10]%N = SanRes ScIndexError.
-Proof. exact sanity_text_refuted_proof. Qed.
+  sanity_check toy_table [97; 10]%N [97; 10; 98; 10]%N = SanRes (ScCount 4 2) /\
+  sanity_check toy_table [97; 32; 10; 10]%N [97; 10]%N = SanRes ScOk.
+Proof. exact sanity_text_example_proof. Qed.
 
 (* re-tokenisation, partial: a line re-tokenises to a given token list iff the local longest-first
    conditions of [line_toks] hold at every token and gap (the per-pattern "no two tokens fuse" facts
